@@ -13,9 +13,9 @@ partial def loop (h : IO.FS.Stream) (out : IO.FS.Stream) (f : Json → Json) : I
   | .ok j => out.putStrLn (f j).compress
   loop h out f
 
-def generic (j : Json) : Json :=
+def generic (g : DrvRun.GOracle) (j : Json) : Json :=
   match J.str (J.get j "k") with
-  | "run" => DrvRun.run j
+  | "run" => DrvRun.run g j
   | "lncol" => DrvC17.lncol j
   | k => J.obj [("id", J.get j "id"), ("agree", false), ("spec", true), ("note", s!"unknown kind {k}")]
 
@@ -24,5 +24,16 @@ def main (args : List String) : IO UInt32 := do
   let stdout ← IO.getStdout
   match args with
   | ["C17"] => loop stdin stdout DrvC17.handle; return 0
-  | [_] => loop stdin stdout generic; return 0
+  | [_] =>
+    -- shared engine answers: one JSON array [query-hex, answer-hex] per line
+    let mut g : DrvRun.GOracle := {}
+    match (← IO.getEnv "VERIF_ORACLE") with
+    | some path =>
+      if (← System.FilePath.pathExists path) then
+        for line in (← IO.FS.lines path) do
+          match Json.parse line with
+          | .ok j => let a := J.arr j; g := g.insert (J.str (a[0]?.getD Json.null)) (J.str (a[1]?.getD Json.null))
+          | .error _ => pure ()
+    | none => pure ()
+    loop stdin stdout (generic g); return 0
   | _ => IO.eprintln "usage: drv <property>"; return 2
